@@ -107,7 +107,14 @@ func (fv *FV) havocAlloc(e *Env) {
 func (fv *FV) havocComp(e *Env, comp string) {
 	s, ok := fv.compSort[comp]
 	if !ok {
-		return
+		v, ok2 := staticSorts.Load(comp)
+		if !ok2 {
+			fv.note("component %s of unknown sort could not be havocked precisely: heap havocked", comp)
+			fv.havocAll(e)
+			return
+		}
+		s = v.(string)
+		fv.compSort[comp] = s
 	}
 	e.heap[comp] = fv.s.freshConst(comp, s)
 }
